@@ -181,6 +181,18 @@ CHECKS = {
          "(Pod only without padding), rkyv archive round trips and mint column/row matrix layouts."),
    note="Trusted: TLC, harness ser.rs (recording serde carrier). Element palette instead of all bit patterns; rkyv only for implementing types.",
    ref="5 (C19)"),
+ "C20": dict(
+   technique="TLA+ type-state machine over precondition classes (invariant OutputsMeetPreconditions, configuration-independent Outcome), TLC enumeration of all two-step chains and simulation of length-12 chains, replay in builds with and without glam-assert, and TLC two-trace validation of bit identity",
+   text=("MC_C20 types registers by the precondition class later consumers rely on and gives each of 115 operations the postcondition that it "
+         "re-establishes the class of the register it writes; TLC checks OutputsMeetPreconditions and that Outcome(op, cfg) differs between "
+         "configurations only for the 12 documented violations, enumerates every two-step chain and simulates chains of length 12. The "
+         "harness executes each chain from seeded off-lattice register files in sse2, scalar-math and their glam-assert builds: after every "
+         "step the written register must pass glam's own check (is_normalized, affine last row, normalised axes, det != 0), no valid chain "
+         "may panic under glam-assert, every violating call must panic there and only there; a digest of all register bits after every "
+         "step is recorded and spec/Trace_SameBits.tla (TLC trace validation) requires the traces of the builds with and without the "
+         "feature to be identical event by event."),
+   note="Trusted: TLC, the operation table tools/gen_c20.py (an operation missing from it is not covered), harness chain.rs.",
+   ref="5 (C20)"),
 }
 
 PENDING = {}
